@@ -53,6 +53,7 @@ namespace
 constexpr int kStallMs = 6000;   // no progress at all for this long = stall (cases take ~5-50 ms: >= 100x)
 constexpr int kDrainAfterCloseMs = 1500; // after onClose the peer reads on for at most this long (any prefix will do)
 constexpr int kCaseCapMs = 30000; // a case that is still moving after this long is abandoned as inconclusive
+constexpr int kSliceMs = 50;     // largest slice of silence one observation may contribute to a stall verdict
 constexpr int kQuietMs = 250;    // after this much silence the data oracle is evaluated early (a wrong byte needs no waiting)
 constexpr int kSetupMs = 10000;  // connection establishment bound (inconclusive beyond)
 constexpr std::size_t kMaxTotal = 1536 * 1024;
@@ -1190,6 +1191,11 @@ void runPlan(const Plan &p, pbt::Case &c)
     };
     const auto waitStart = Clock::now();
     auto lastProgress = waitStart;
+    // Quiet time is only counted in slices the observer itself witnessed (<= kSliceMs per loop
+    // iteration): if the whole process or VM is frozen for seconds, the wall clock jumps but no
+    // thread - including the engine's - had a chance to run, and that must not count as a stall.
+    auto lastIter = waitStart;
+    std::int64_t quietObservedMs = 0;
     std::uint64_t lastTicks = ~0ULL, lastAct = ~0ULL;
     bool quietChecked = false;
     bool closedSeen = false;
@@ -1267,19 +1273,25 @@ void runPlan(const Plan &p, pbt::Case &c)
           }
         }
       }
+      {
+        std::int64_t dt = std::chrono::duration_cast<std::chrono::milliseconds>(now - lastIter).count();
+        lastIter = now;
+        quietObservedMs += std::min<std::int64_t>(dt, kSliceMs);
+      }
       if (tk != lastTicks || act != lastAct || !engineOwes)
       {
         if (tk != lastTicks || act != lastAct) quietChecked = false;
         lastTicks = tk;
         lastAct = act;
         lastProgress = now;
+        quietObservedMs = 0;
         if (msSince(waitStart) > kCaseCapMs)
         {
           outcome = Outcome::TooSlow;
           break;
         }
       }
-      else if (msSince(lastProgress) > kStallMs)
+      else if (quietObservedMs > kStallMs)
       {
         pbt::Fmt f;
         f << "no engine activity for " << kStallMs << " ms although " << owes << ": peer read " << peer.nRead.load() << " of " << accTotal
@@ -1287,6 +1299,20 @@ void runPlan(const Plan &p, pbt::Case &c)
           << c01net::streamWriteScriptLeft() << " write / " << c01net::streamReadScriptLeft() << " read steps";
         stallWhat = f.str();
         outcome = wireEnded ? Outcome::NoCloseAfterEnd : Outcome::Stall;
+        if (std::getenv("C01_STALL_GDB"))
+        {
+          // debugging aid: stacks of all threads at the moment of the verdict
+          c01net::Counters k = c01net::counters();
+          std::fprintf(stderr, "STALL pid=%d %s | wrCalls=%llu rdCalls=%llu rdAgainReal=%llu rdBytes=%llu wrBytes=%llu efd=%d\n  %s\n", (int)getpid(), stallWhat.c_str(),
+                       (unsigned long long)k.wrCalls, (unsigned long long)k.rdCalls, (unsigned long long)k.rdAgainReal, (unsigned long long)k.rdBytes,
+                       (unsigned long long)k.wrBytes, c01net::lastEngineStreamFd(), describe(p).c_str());
+          char cmd[512];
+          std::snprintf(cmd, sizeof cmd, "gdb -p %d -batch -ex 'thread apply all bt 30' > /tmp/wk_C01/stall_%d.txt 2>&1", (int)getpid(), (int)getpid());
+          lk.unlock();
+          int rc = std::system(cmd);
+          (void)rc;
+          lk.lock();
+        }
         break;
       }
       if (!quietChecked && sendersFinished && msSince(lastProgress) > kQuietMs)
@@ -1612,15 +1638,20 @@ void runCuts(const CutsPlan &p, pbt::Case &c)
       got.assign(exp.size(), 0);
       std::size_t have = 0;
       int r = 1;
-      auto t0 = Clock::now();
+      int quietSlices = 0; // only slices in which poll() really waited and saw nothing count (see runPlan)
       while (have < exp.size())
       {
-        r = rawpeer::readSome(fd, got.data() + have, exp.size() - have, 200);
-        if (r > 0) have += static_cast<std::size_t>(r);
+        r = rawpeer::readSome(fd, got.data() + have, exp.size() - have, kSliceMs);
+        if (r > 0)
+        {
+          have += static_cast<std::size_t>(r);
+          quietSlices = 0;
+        }
         else if (r == rawpeer::RP_TIMEOUT)
         {
-          if (have && std::memcmp(got.data(), exp.data(), have) != 0) break; // wrong byte: no need to wait
-          if (msSince(t0) > kStallMs) break;
+          ++quietSlices;
+          if (have && quietSlices * kSliceMs > kQuietMs && std::memcmp(got.data(), exp.data(), have) != 0) break; // wrong byte: no need to wait
+          if (quietSlices * kSliceMs > kStallMs) break;
         }
         else
           break;
@@ -1688,7 +1719,14 @@ void runCuts(const CutsPlan &p, pbt::Case &c)
         break;
       }
       std::unique_lock<std::mutex> lk(sh->mu);
-      bool okw = sh->cv.wait_for(lk, std::chrono::milliseconds(kStallMs), [&] { return sh->D.size() >= before + m || sh->closed; });
+      bool okw = false;
+      for (int slices = 0; slices * kSliceMs <= kStallMs; ++slices)
+      {
+        std::size_t was = sh->D.size();
+        okw = sh->cv.wait_for(lk, std::chrono::milliseconds(kSliceMs), [&] { return sh->D.size() >= before + m || sh->closed; });
+        if (okw) break;
+        if (sh->D.size() != was) slices = 0; // progress
+      }
       std::size_t have = sh->D.size() - before;
       if (have > m || (have && std::memcmp(sh->D.data() + before, msg.data(), std::min(have, m)) != 0))
       {
